@@ -14,7 +14,7 @@ def run(tier, seed):
         "states": r["stats"]["distinct"], "transitions": r["stats"]["generated"],
         "traces_validated_against_impl": 2 * len(r["cases"]),
         "system_metric_state_cases": len(r["cases"]), "return_conventions": ["plain", "with auxiliary outputs"],
-        "systems": sorted({f"{c['sys']}[{c['metric']}]" for c in r["cases"]}),
+        "systems": sorted({f"{c['sys']}[{c.get('given') or c['metric']}]" for c in r["cases"]}),
         "values_compared_exactly": r["values"], "softabs_values_compared_numerically": r["softabs_values"],
         "samples": [{k: mid[k] for k in ("sys", "metric", "q", "p", "h1poly", "h1det", "h2", "dh1_dpos", "dh2_dpos", "dh2_dmom")}],
     }
